@@ -331,8 +331,11 @@ def feature_counts(cases):
         if order != [n['id'] for n in d['nodes']]:
             inc('deferred library nodes (forward instance_node)')
         for s in d['scenes']:
-            for n in s['nodes']:
+            ids = [n['id'] for n in s['nodes']]
+            for k, n in enumerate(s['nodes']):
                 walk(n)
+                if any(r in ids[k + 1:] for r in expect.inst_refs(n)):
+                    inc('scene node instantiating a later top-level node')
         if d.get('foreign'):
             inc('foreign-namespace extras')
         if d.get('prefixed'):
